@@ -33,8 +33,11 @@ class C20Plan(RunPlan):
     def boots(self, tier, seed):
         return std_boots(seed, 1 if tier == "quick" else 4)[:1 if tier == "quick" else None]
 
+    def params(self, tier):
+        return {"long": tier == "thorough"}
+
     def request(self, run_seed, boot):
-        return {"engine": "T", "prop": "C20", "seed": run_seed, "params": {}, "timeout": 180}
+        return {"engine": "T", "prop": "C20", "seed": run_seed, "params": self.params_cache, "timeout": 180}
 
     def nontrivial(self, r):
         return r.get("counters", {}).get("C20.keys.checked", 0) > 0 and \
@@ -179,7 +182,7 @@ class C19Plan(RunPlan):
             "clause; distinct = distinct event-log digests among them.")
 
     def params(self, tier):
-        return {"late_imports": list(ALL_MODULES), "faults": True}
+        return {"late_imports": list(ALL_MODULES), "faults": True, "long": tier == "thorough"}
 
     def boots(self, tier, seed):
         return std_boots(seed, 2 if tier == "quick" else 8)
@@ -390,7 +393,7 @@ class C08Plan(RunPlan):
         return b_boots(seed, tier)
 
     def params(self, tier):
-        return {"faults": True}
+        return {"faults": True, "long": tier == "thorough"}
 
     def request(self, run_seed, boot):
         return {"engine": "B", "prop": self.prop, "seed": run_seed,
@@ -542,7 +545,7 @@ class C04Plan(RunPlan):
         return b_boots(seed, tier)
 
     def params(self, tier):
-        return {"faults": True}
+        return {"faults": True, "long": tier == "thorough"}
 
     def request(self, run_seed, boot):
         return {"engine": "B", "prop": self.prop, "seed": run_seed,
@@ -577,7 +580,7 @@ class C07Plan(C04Plan):
         # no asynchronous exceptions here: an injection is placed by counting line events, and
         # `python -O` executes fewer lines (asserts vanish), so the same ordinal would land
         # elsewhere and the two logs would differ for a reason that is not the library's
-        return {"faults": False}
+        return {"faults": False, "long": tier == "thorough"}
 
     def boots(self, tier, seed):
         return b_boots(seed, tier)
@@ -654,7 +657,7 @@ class C02Plan(RunPlan):
             "Non-trivial = >=1 identity check; distinct = distinct digests.")
 
     def params(self, tier):
-        return {"late_imports": list(ALL_MODULES), "faults": True}
+        return {"late_imports": list(ALL_MODULES), "faults": True, "long": tier == "thorough"}
 
 
 class C15Plan(RunPlan):
@@ -674,7 +677,7 @@ class C15Plan(RunPlan):
             "identity table across load and rebuild. Non-trivial = >=1 round trip or load checked.")
 
     def params(self, tier):
-        return {"late_imports": list(ALL_MODULES), "faults": True}
+        return {"late_imports": list(ALL_MODULES), "faults": True, "long": tier == "thorough"}
 
     def nontrivial(self, r):
         c = r.get("counters", {})
@@ -705,7 +708,7 @@ class C13Plan(RunPlan):
         return [dict(b, trace=True) for b in bs]
 
     def params(self, tier):
-        return {"late_imports": list(ALL_MODULES), "faults": False}
+        return {"late_imports": list(ALL_MODULES), "faults": False, "long": tier == "thorough"}
 
     def nontrivial(self, r):
         c = r.get("counters", {})
